@@ -156,6 +156,13 @@ def run(ctx):
     P = fa.find(lambda s: isinstance(s, ast.Assign) and any(src(t) == f"{pvar}['it']" for t in s.targets))
     P = fa.one(P, f"{pvar}['it'] assignment")
     ctx.ob("R-ORDER", "C01.2", f, "inserted point's `it` is the (already advanced) iteration", src(fa.stmt(P).value) == "self.iteration", f"`{fa.text(P)}`", node=fa.stmt(P))
+    # ... and only an *accepted* draw is stamped: when the pool runs dry yield_sample hands back the old point itself - the
+    # very object that was just appended to nested_samples - so a stamp applied before the acceptance test rewrites the
+    # birth iteration of a recorded point
+    ctx.ob("R-DOM", "C01.2", f, "a drawn point is written to (`it` stamp) only after it was accepted (p['logL'] > self.logLmin)", has_fact(guard_facts(fa, P), f"{pvar}['logL']", "Gt", "self.logLmin"), f"`{fa.text(P)}` under {[(src(e_)[:40], t_) for e_, t_ in guard_facts(fa, P)]}", node=fa.stmt(P))
+    for wn_ in fa.find(lambda s_: isinstance(s_, (ast.Assign, ast.AugAssign)) and any(isinstance(t_, ast.Subscript) and isinstance(t_.value, ast.Name) and t_.value.id == pvar for t_ in (s_.targets if isinstance(s_, ast.Assign) else [s_.target]))):
+        if wn_ != P:
+            ctx.ob("R-DOM", "C01.2", f, "a drawn point is written to (`it` stamp) only after it was accepted (p['logL'] > self.logLmin)", has_fact(guard_facts(fa, wn_), f"{pvar}['logL']", "Gt", "self.logLmin"), f"`{fa.text(wn_)}`", node=fa.stmt(wn_))
     X_ = fa.find_calls("self.insertion_indices.append")
     X, xcall = fa.one(X_, "self.insertion_indices.append call")
     # either through a local (`i = insert_live_point(p); indices.append(i)`) or directly (`indices.append(insert_live_point(p))`)
@@ -492,6 +499,7 @@ MUTANTS = [
     {"id": "finalise-constant-nlive", "file": _F, "old": 'self.state.increment(p["logL"], nlive=self.nlive - i)', "new": 'self.state.increment(p["logL"])', "expect": "live count decreases"},
     {"id": "pool-field-order", "file": "nessai/proposal/flowproposal.py", "old": "        return rfn.repack_fields(\n            x[self.model.names + config.livepoints.non_sampling_parameters]\n        )", "new": "        keep = self.model.names + config.livepoints.non_sampling_parameters\n        return rfn.drop_fields(x, [n for n in x.dtype.names if n not in keep], usemask=False)", "expect": "canonical field order"},
     {"id": "update-state-in-retry", "file": _F, "old": "                self.rejected += 1\n                self.check_state()\n", "new": "                self.rejected += 1\n                self.update_state()\n                self.check_state()\n", "expect": "call `self.update_state` that can write a periodic checkpoint"},
+    {"id": "stamp-before-acceptance-test", "file": _F, "edits": [(_F, '                proposed["it"] = self.iteration\n', ""), (_F, "            count += c\n", '            count += c\n            proposed["it"] = self.iteration\n')], "expect": "written to (`it` stamp) only after it was accepted"},
     {"id": "finalise-skip-append", "file": _F, "old": "            self.nested_samples.append(p)\n        self.live_points = None", "new": "            if i:\n                self.nested_samples.append(p)\n        self.live_points = None", "expect": "paired once per remaining point"},
 ]
 
